@@ -229,6 +229,30 @@ Check C14_stable_refuted_F13 :
         exists s1, ignore_lint context hash [] l d = Ok s1 /\ is_ignored context hash s1 l' d' = Ok false.
 Print Assumptions C14_stable_refuted_F13.
 
+(* F13e: a lint at offset 1 has no prequel window; a Markdown paragraph put in front gives it one *)
+Theorem C14_stable_refuted_prequel :
+  exists l d l' d',
+    doc_wf d /\ doc_wf d' /\ untouched l d l' d' /\
+    (exists k, l' = shift_lint k l /\ skipn k (dsrc d') = dsrc d) /\
+    sstart (il_span l) = 1 /\
+    no_quote (match nb_tokens l d with Ok w => w | Panic _ => [] end) /\
+    context_fixed l d = context_fixed l' d' /\
+    exists c c', context l d = Ok c /\ context l' d' = Ok c' /\ c <> c' /\
+      forall hash : ctx -> N, hash c <> hash c' ->
+        exists s1, ignore_lint context hash [] l d = Ok s1 /\ is_ignored context hash s1 l' d' = Ok false.
+Proof. exact stable_refuted_prequel. Qed.
+Check C14_stable_refuted_prequel :
+  exists l d l' d',
+    doc_wf d /\ doc_wf d' /\ untouched l d l' d' /\
+    (exists k, l' = shift_lint k l /\ skipn k (dsrc d') = dsrc d) /\
+    sstart (il_span l) = 1 /\
+    no_quote (match nb_tokens l d with Ok w => w | Panic _ => [] end) /\
+    context_fixed l d = context_fixed l' d' /\
+    exists c c', context l d = Ok c /\ context l' d' = Ok c' /\ c <> c' /\
+      forall hash : ctx -> N, hash c <> hash c' ->
+        exists s1, ignore_lint context hash [] l d = Ok s1 /\ is_ignored context hash s1 l' d' = Ok false.
+Print Assumptions C14_stable_refuted_prequel.
+
 (* hence the property's third sentence, as a statement about the code, is false — also with F12's repair alone *)
 Theorem C14_stays_ignored_refuted : ~ stays_ignored context /\ ~ stays_ignored context_f12.
 Proof. exact stays_ignored_refuted. Qed.
